@@ -19,7 +19,9 @@
     "independent active-set solve" of the property is therefore proof-carrying.
     `exactKKT_hypotheses` turns an accepted pair into the `(x*, y*, n*)` hypotheses of
     `kkt_error_bound`; `isSCCert_sound` certifies the constant `μ` from a factor `B`.
-  * `descent_finite_termination` — the sublinear global-convergence mechanism in exact arithmetic.
+  * `descent_finite_termination` — the arithmetic core of the sublinear global-convergence argument in
+    exact arithmetic (finite horizon), instantiated on the callback log of a concrete PANOC model run;
+    it says nothing about the binary64 solver.
   * `alm_multiplier_update_is_dual_ascent_partial` — the ALM multiplier update produces a pair
     `(z, ŷ)` with `z ∈ D`, `ŷ ∈ N_D(z)`, `g − z = (ŷ − y)/σ` (the `(e, δ)` hypothesis of the bound);
     algebraic identity only, no rate.
@@ -29,6 +31,7 @@
 -/
 import Alpaqa.Proofs.C02
 import Alpaqa.Props.C01
+import Alpaqa.Proofs.PanocLoopExample
 
 namespace Alpaqa.Props.C02
 open Alpaqa Alpaqa.C02 Alpaqa.Props.C01 Matrix
@@ -393,34 +396,43 @@ theorem bound_from_certificates {n m k : ℕ} (Q : Fin n → Fin n → α) (c : 
 
 /-! ### Sublinear global convergence in exact arithmetic -/
 
-theorem descent_telescope (φ s : ℕ → α) (c : α) (hdesc : ∀ k, φ (k + 1) ≤ φ k - c * s k) (N : ℕ) :
-    φ N ≤ φ 0 - c * ∑ k ∈ Finset.range N, s k := by
-  induction N with
-  | zero => simp
-  | succ N ih =>
+theorem descent_telescope (φ s : ℕ → α) (c : α) (N : ℕ)
+    (hdesc : ∀ k < N, φ (k + 1) ≤ φ k - c * s k) :
+    ∀ M ≤ N, φ M ≤ φ 0 - c * ∑ k ∈ Finset.range M, s k := by
+  intro M
+  induction M with
+  | zero => intro _; simp
+  | succ M ih =>
+    intro hM
     rw [Finset.sum_range_succ, mul_add]
-    have := hdesc N
+    have := hdesc M (by omega)
+    have := ih (by omega)
     linarith
 
-/-- **Finite termination of any sufficient-decrease method.**  If `φ_{k+1} ≤ φ_k − c·s_k`
-    (`s_k = ‖p_k‖²`), `c > 0`, `φ ≥ φ_inf`, then among the first `N` iterates one has
-    `s_k ≤ (φ_0 − φ_inf)/(c N)`. -/
-theorem descent_finite_termination (φ s : ℕ → α) (c φinf : α) (hc : 0 < c)
-    (hdesc : ∀ k, φ (k + 1) ≤ φ k - c * s k) (hinf : ∀ k, φinf ≤ φ k) (N : ℕ) (hN : 0 < N) :
+/-- **Finite termination of any sufficient-decrease method** (finite horizon: only the first `N` steps
+    are constrained, so the statement applies to the callback log of a *finite* run).  If
+    `φ_{k+1} ≤ φ_k − c·s_k` for `k < N` (`s_k = ‖p_k‖²`, `c > 0`) and `φ_N ≥ φ_inf`, then among the
+    first `N` iterates one has `s_k ≤ (φ_0 − φ_inf)/(c N)`.
+
+    Role: this is the arithmetic core of the sublinear global-convergence argument only.  The descent
+    hypothesis is what `Props/C05` proves for the loop models (`accepted_step_descent_loop`: every
+    completed iteration decreases the envelope by `(1−γL)/(2γ)·‖p‖²`, resp. `β` times that); it is
+    instantiated below on the callback log of a concrete PANOC model run.  No statement about the
+    binary64 solver follows from it (see the step-size-collapse finding in `checks/c02.py`). -/
+theorem descent_finite_termination (φ s : ℕ → α) (c φinf : α) (hc : 0 < c) (N : ℕ) (hN : 0 < N)
+    (hdesc : ∀ k < N, φ (k + 1) ≤ φ k - c * s k) (hinf : φinf ≤ φ N) :
     ∃ k < N, s k ≤ (φ 0 - φinf) / (c * N) := by
   by_contra hcon0
   have hcon : ∀ k < N, (φ 0 - φinf) / (c * N) < s k :=
     fun k hk => lt_of_not_ge fun hle => hcon0 ⟨k, hk, hle⟩
   have hNpos : (0 : α) < (N : α) := by exact_mod_cast hN
-  have hcN : 0 < c * (N : α) := mul_pos hc hNpos
   set b := (φ 0 - φinf) / (c * N) with hb
   have hsum : (N : α) * b < ∑ k ∈ Finset.range N, s k := by
     have : ∑ _k ∈ Finset.range N, b < ∑ k ∈ Finset.range N, s k :=
       Finset.sum_lt_sum_of_nonempty (by simpa using Nat.pos_iff_ne_zero.mp hN)
         fun k hk => hcon k (Finset.mem_range.mp hk)
     simpa using this
-  have htel := descent_telescope φ s c hdesc N
-  have hlow := hinf N
+  have htel := descent_telescope φ s c N hdesc N le_rfl
   have hbc : c * ((N : α) * b) = φ 0 - φinf := by
     rw [hb]; field_simp
   have : c * ((N : α) * b) < c * ∑ k ∈ Finset.range N, s k := mul_lt_mul_of_pos_left hsum hc
@@ -518,15 +530,157 @@ example (z : Fin 2 → ℚ) (hzC : ∀ i, InBox (exClb i) (exCub i) (z i))
   (exactKKT_unique_minimiser exQ exc exA exClb exCub exDlb exDub exXs exYs 1 one_pos
     (by c02_eval) (isSCCert_sound exQ 1 exB (by c02_eval)) z hzC hzD).1
 
-/-- `descent_finite_termination` with all hypotheses discharged: `φ_k = 1/(k+1)`, `φ_inf = 0`,
-    `c = 1`, `s_k = φ_k − φ_{k+1}`, `N = 4`. -/
-example : ∃ k : ℕ, k < 4 ∧ (1 : ℚ) / ((k : ℚ) + 1) - 1 / ((k : ℚ) + 2) ≤ 1 / 4 := by
-  have h := descent_finite_termination (fun k : ℕ => (1 : ℚ) / ((k : ℚ) + 1))
-    (fun k : ℕ => (1 : ℚ) / ((k : ℚ) + 1) - 1 / ((k : ℚ) + 2)) 1 0 one_pos
-    (fun k => by
-      have : ((k + 1 : ℕ) : ℚ) + 1 = (k : ℚ) + 2 := by push_cast; ring
-      simp only [this, one_mul]; linarith)
-    (fun k => by positivity) 4 (by norm_num)
+/-! #### The bound on a point that is **not** the solution -/
+
+def exX : Fin 2 → ℚ := fun i => if i = 0 then 0 else 11 / 10
+def exY : Fin 1 → ℚ := fun _ => -6 / 5
+
+theorem ex_hxC : ∀ i, InBox (exClb i) (exCub i) (exX i) := by
+  rw [Fin.forall_fin_two]; constructor <;> simp [InBox, exClb, exCub, exX]
+
+theorem ex_hstat : ∀ i, ∃ nv, InNormalCone (exClb i) (exCub i) (exX i) nv ∧
+    |(-(((2 : ℚ)⁻¹ • ((Matrix.of exQ) *ᵥ exX + (Matrix.of exQ)ᵀ *ᵥ exX) + exc) + (Matrix.of exA)ᵀ *ᵥ exY) i) - nv|
+      ≤ 1 / 10 := by
+  rw [Fin.forall_fin_two]; constructor
+  · refine ⟨-1, ?_, ?_⟩
+    · intro z hz
+      have := hz.1 0 (by simp [exClb])
+      simp [exX]; linarith
+    · simp [Matrix.mulVec, dotProduct, Fin.sum_univ_two, exQ, exc, exA, exX, exY]
+      norm_num [abs_le]
+  · refine ⟨0, ?_, ?_⟩
+    · intro z _; simp
+    · simp [Matrix.mulVec, dotProduct, Fin.sum_univ_two, exQ, exc, exA, exX, exY]
+      norm_num [abs_le]
+
+theorem ex_hfeas : ∀ j, ∃ e, |e| ≤ (1 / 10 : ℚ) ∧ InBox (exDlb j) (exDub j) (((Matrix.of exA) *ᵥ exX) j - e) ∧
+    InNormalCone (exDlb j) (exDub j) (((Matrix.of exA) *ᵥ exX) j - e) (exY j) := by
+  intro j
+  have hj : j = 0 := Subsingleton.elim _ _
+  subst hj
+  have hA : ((Matrix.of exA) *ᵥ exX) 0 = 11 / 10 := by
+    simp [Matrix.mulVec, dotProduct, Fin.sum_univ_two, exA, exX]
+  refine ⟨1 / 10, by norm_num [abs_le], ?_, ?_⟩
+  · rw [hA]; constructor <;> intro b hb <;> simp [exDlb, exDub] at hb <;> subst hb <;> norm_num
+  · rw [hA]; intro z hz
+    have h1 := hz.1 1 (by simp [exDlb]); have h2 := hz.2 1 (by simp [exDub])
+    have : z = 1 := le_antisymm h2 h1
+    subst this; norm_num
+
+/-- **`bound_from_certificates` on a point that is not the solution**: `x = (0, 11/10)`, `y = −6/5`
+    is an `(ε, δ) = (1/10, 1/10)`-KKT pair of the example QP (`r = (−1/10, 0)`, `e = 1/10`),
+    `x* = (0, 1)`, `y* = −1`; every hypothesis discharged. -/
+example : (1 : ℚ) * ∑ i, (exX i - exXs i) ^ 2 ≤
+    1 / 10 * ∑ i, |exX i - exXs i| + 1 / 10 * ∑ j, |exY j - exYs j| :=
+  bound_from_certificates exQ exc exA exB 1 (1 / 10) (1 / 10) exClb exCub exDlb exDub exX exY exXs exYs
+    (by c02_eval) (by c02_eval) ex_hxC ex_hstat ex_hfeas
+
+/-- the instance is not the trivial one, and the inequality is the numerical statement `1/100 ≤ 3/100` -/
+example : exX ≠ exXs ∧ exY ≠ exYs ∧ (1 : ℚ) * ∑ i, (exX i - exXs i) ^ 2 = 1 / 100 ∧
+    (1 / 10 * ∑ i, |exX i - exXs i| + 1 / 10 * ∑ j, |exY j - exYs j| : ℚ) = 3 / 100 := by
+  refine ⟨fun h => ?_, fun h => ?_, ?_, ?_⟩
+  · have := congrFun h 1; simp [exX, exXs] at this; norm_num at this
+  · have := congrFun h 0; simp [exY, exYs] at this; norm_num at this
+  · simp [Fin.sum_univ_two, exX, exXs]; norm_num
+  · simp [Fin.sum_univ_two, exX, exXs, exY, exYs]; norm_num [abs_of_pos, abs_of_neg]
+
+/-- **`c01_certificate_implies_bound` on the same point** (the exact-KKT side from the accepted
+    certificate through `exactKKT_hypotheses`, `μ` through `isSCCert_sound`). -/
+example : (1 : ℚ) * ∑ i, (exX i - exXs i) ^ 2 ≤
+    1 / 10 * ∑ i, |exX i - exXs i| + 1 / 10 * ∑ j, |exY j - exYs j| := by
+  obtain ⟨h1, h2, h3, h4⟩ := exactKKT_hypotheses exQ exc exA exClb exCub exDlb exDub exXs exYs (by c02_eval)
+  exact c01_certificate_implies_bound (Matrix.of exQ) exc 1 (1 / 10) (1 / 10)
+    (isSCCert_sound exQ 1 exB (by c02_eval)) (Matrix.of exA) exClb exCub exDlb exDub exX exY exXs exYs
+    ex_hxC ex_hstat ex_hfeas h1 h2 h3 h4
+
+/-- **`kkt_error_bound` itself, closed**: `G x = ½(Q + Qᵀ)x + c`, `C = [0, ∞) × ℝ`, `D = {1}`, the
+    approximate pair `x = (0, 11/10)`, `y = −6/5` with normal-cone element `n = (−1, 0)`, residual
+    `r = (−1/10, 0)` (`‖r‖∞ = ε = 1/10`), slack `e = 1/10 = δ`; the exact pair `x* = (0, 1)`, `y* = −1`,
+    `n* = (−1, 0)`. -/
+example : (1 : ℚ) * ∑ i, (exX i - exXs i) ^ 2 ≤
+    1 / 10 * ∑ i, |exX i - exXs i| + 1 / 10 * ∑ j, |exY j - exYs j| := by
+  have hmv : ∀ v : Fin 2 → ℚ, ∀ i, ((Matrix.of exQ) *ᵥ v) i = exQ i 0 * v 0 + exQ i 1 * v 1 := by
+    intro v i; simp [Matrix.mulVec, dotProduct, Fin.sum_univ_two]
+  have hmvT : ∀ v : Fin 2 → ℚ, ∀ i, ((Matrix.of exQ)ᵀ *ᵥ v) i = exQ 0 i * v 0 + exQ 1 i * v 1 := by
+    intro v i; simp [Matrix.mulVec, dotProduct, Fin.sum_univ_two]
+  have hAT : ∀ w : Fin 1 → ℚ, ∀ i, ((Matrix.of exA)ᵀ *ᵥ w) i = w 0 := by
+    intro w i; simp [Matrix.mulVec, dotProduct, exA]
+  have hA : ∀ v : Fin 2 → ℚ, ∀ j, ((Matrix.of exA) *ᵥ v) j = v 0 + v 1 := by
+    intro v j; simp [Matrix.mulVec, dotProduct, Fin.sum_univ_two, exA]
+  refine kkt_error_bound (fun x => (2 : ℚ)⁻¹ • ((Matrix.of exQ) *ᵥ x + (Matrix.of exQ)ᵀ *ᵥ x) + exc) 1 (1 / 10) (1 / 10)
+    (quad_strongly_monotone (Matrix.of exQ) exc 1 (isSCCert_sound exQ 1 exB (by c02_eval)))
+    (Matrix.of exA) (BoxSet exClb exCub) (BoxSet exDlb exDub)
+    exX (fun i => if i = 0 then -1 else 0) (fun i => if i = 0 then -1 / 10 else 0) exY (fun _ => 1 / 10)
+    exXs (fun i => if i = 0 then -1 else 0) exYs
+    ex_hxC ?_ ?_ ?_ ?_ ?_ ?_ ?_ ?_ ?_ ?_ ?_
+  · -- n ∈ N_C(x)
+    apply box_normalCone_of_signCond
+    rw [Fin.forall_fin_two]; constructor <;> simp [SignCond, exClb, exCub, exX]
+  · -- G x + Aᵀy + n = r
+    funext i
+    simp only [Pi.add_apply, Pi.smul_apply, smul_eq_mul, hmv, hmvT, hAT]
+    revert i; rw [Fin.forall_fin_two]; constructor <;> simp [exQ, exc, exX, exY] <;> norm_num
+  · rw [Fin.forall_fin_two]; constructor <;> norm_num [abs_le]
+  · -- z = A x − e ∈ D
+    intro j; simp only [Pi.sub_apply, hA]; simp [InBox, exDlb, exDub, exX]; norm_num
+  · intro j; norm_num [abs_le]
+  · -- y ∈ N_D(z): D is a point
+    intro z hz
+    have hz0 : z 0 = 1 := le_antisymm ((hz 0).2 1 (by simp [exDub])) ((hz 0).1 1 (by simp [exDlb]))
+    simp [dotProduct, hA, exX, hz0]; norm_num
+  · show ∀ i, InBox (exClb i) (exCub i) (exXs i)
+    rw [Fin.forall_fin_two]; constructor <;> simp [InBox, exClb, exCub, exXs]
+  · apply box_normalCone_of_signCond
+    rw [Fin.forall_fin_two]; constructor <;> simp [SignCond, exClb, exCub, exXs]
+  · funext i
+    simp only [Pi.add_apply, Pi.smul_apply, smul_eq_mul, hmv, hmvT, hAT, Pi.zero_apply]
+    revert i; rw [Fin.forall_fin_two]; constructor <;> simp [exQ, exc, exXs, exYs] <;> norm_num
+  · intro j; simp only [hA]; simp [InBox, exDlb, exDub, exXs]
+  · intro z hz
+    have hz0 : z 0 = 1 := le_antisymm ((hz 0).2 1 (by simp [exDub])) ((hz 0).1 1 (by simp [exDlb]))
+    simp [dotProduct, hA, exXs, hz0]
+
+/-! #### `descent_finite_termination` on a concrete PANOC model run
+
+  `Proofs/PanocLoopExample.rq none`: the PANOC loop model (`Model/Panoc.run`, the definition the C03 /
+  C05 / C06 theorems and the trace replay are about) on `ψ = ½‖x‖²` from `x₀ = [1]` with the no-op
+  provider — three reported iterates, both completed iterations safeguarded (`τ = 0`), `γ = 19/40`,
+  `L = 2`.  `φ_k` is the envelope and `s_k = ‖p_k‖²` the squared step the *model* reports for iterate
+  `k` (independent quantities, not defined from each other), `c = (1 − γL)/(2γ) = 1/19` is C05's
+  descent constant. -/
+
+section panoc_run
+open Alpaqa.Panoc Alpaqa.Panoc.Example
+
+def runFbe (k : ℕ) : ℚ := ((rq none).callbacks.map (·.fbe)).getD k 0
+def runPTp (k : ℕ) : ℚ := ((rq none).callbacks.map (·.it.pTp)).getD k 0
+
+example : ∃ k < 2, runPTp k ≤ (runFbe 0 - 0) / (1 / 19 * (2 : ℕ)) := by
+  have hφ : (rq none).callbacks.map (·.fbe) = [21/80, 9261/128000, 4084101/204800000] := by
+    decide +kernel
+  have hs : (rq none).callbacks.map (·.it.pTp) = [361/1600, 159201/2560000, 70207641/4096000000] := by
+    decide +kernel
+  refine descent_finite_termination runFbe runPTp (1 / 19) 0 (by norm_num) 2 (by norm_num) ?_ ?_
+  · intro k hk
+    have hk' : k = 0 ∨ k = 1 := by omega
+    rcases hk' with rfl | rfl <;> simp [runFbe, runPTp, hφ, hs] <;> norm_num
+  · simp [runFbe, hφ]; norm_num
+
+/-- the constant used is the model's: `(1 − γ_k L_k)/(2γ_k) = 1/19` at every reported iterate -/
+example : (rq none).callbacks.map (fun c => (1 - c.it.gamma * c.it.L) / (2 * c.it.gamma)) =
+    [1/19, 1/19, 1/19] := by decide +kernel
+end panoc_run
+
+/-- … and on an infinite sequence in closed form: exact proximal-gradient iterates of `ψ = ½x²` with
+    `γ = ½` (`L = 1`): `x_k = 2⁻ᵏ`, envelope `φ_k = x_k²/4`, step `‖p_k‖² = x_k²/4`,
+    `c = (1 − γL)/(2γ) = ½`, `N = 8`. -/
+example : ∃ k < 8, (1 / 4 : ℚ) ^ k / 4 ≤ (1 / 4 - 0) / (1 / 2 * (8 : ℕ)) := by
+  have h := descent_finite_termination (fun k : ℕ => (1 / 4 : ℚ) ^ k / 4) (fun k : ℕ => (1 / 4 : ℚ) ^ k / 4)
+    (1 / 2) 0 (by norm_num) 8 (by norm_num)
+    (fun k _ => by
+      have : (0 : ℚ) ≤ (1 / 4) ^ k := by positivity
+      rw [pow_succ]; nlinarith)
+    (by positivity)
   simpa using h
 
 example : projO (some (0 : ℚ)) (some 1) (3 + 2 / 2) = 1 := by norm_num [projO]
